@@ -22,7 +22,7 @@ pub fn parse_raw3<'a>(
         trace!(
             "For mipmap size {:?} we should fetch {} bytes",
             blp_header.mipmap_size(i),
-            n * 4
+            n as u64 * 4
         );
 
         let mut reader = Cursor::new(image_bytes);
